@@ -34,14 +34,14 @@ macro("ConfigOk", ["c"], """
 fn(T + "__init__", params={"config": "ref:TreeConfig"},
    requires=[cl("config", "ConfigOk(config)")],
    modifies=[(f_, "o == self") for f_ in ("metaepoch_count", "config", "_gsc", "_sprout_mechanism", "_logger", "_random_seed", "_levels")]
-            + USER_PROBLEM_FRAME + [("$np_seed", "o == None"), ("$np_draws", "o == None"),
+            + USER_PROBLEM_FRAME + [("$steps", "o == self"), ("$np_seed", "o == None"), ("$np_draws", "o == None"),
                                                        ("$py_seed", "o == None"), ("$py_draws", "o == None")],
    loops={0: dict(index="k", acc="lv", acc_type="list[list[ref:AbstractDeme]]", modifies=[], invariant=[
        cl("inv_len", "len(lv) == k and fresh(lv)"),
        cl("inv_fresh_empty", "forall(lambda a: imp(0 <= a < k, lv[a] != None and fresh(lv[a]) and len(lv[a]) == 0 and lv[a] != lv), pat=lv[a])"),
        cl("inv_distinct", "forall(lambda a, b: imp(0 <= a and a < b and b < k, lv[a] != lv[b]))"),
    ])},
-   ghost_after={"assign:_levels@0": [
+   ghost_after={"assign:metaepoch_count@0": ["setg(self, '$steps', 0)"], "assign:_levels@0": [
        "setg(self._levels, '$kind', 4)", "setg(self._levels, '$owner', self)",
        "setg_all(lambda k_: self._levels[k_], '$kind', lambda k_: 1, 0, len(self._levels))",
        "setg_all(lambda k_: self._levels[k_], '$owner', lambda k_: self, 0, len(self._levels))",
@@ -52,7 +52,7 @@ fn(T + "__init__", params={"config": "ref:TreeConfig"},
           "imp(some(self._random_seed), np_seed() == self._random_seed and np_draws() == 0 "
           "and py_seed() == self._random_seed and py_draws() == 0)", tags="C14")]},
    ensures=struct("self") + [
-       cl("fresh_tree", "self.metaepoch_count == 0 and self.config == config and self._gsc == config.gsc "
+       cl("fresh_tree", "self.metaepoch_count == 0 and steps(self) == 0 and self.config == config and self._gsc == config.gsc "
           "and self._sprout_mechanism == config.sprout_mechanism", tags="C07 C05"),
        cl("only_a_root", "forall(lambda l: imp(1 <= l and l < len(self._levels), len(self._levels[l]) == 0), pat=self._levels[l])", tags="C07"),
        cl("root_is_fresh", "self._levels[0][0]._active and not self._levels[0][0]._hibernating and self._levels[0][0]._started_at == 0 "
